@@ -148,7 +148,12 @@ def gen_wide(rng, tier):
     for _ in range(1 if tier == 'quick' else 2):
         # more than 2^20 steps: only what needs no exact coupling to the draws is compared
         labs = rng.sample([1, 2, 3, 5, 8], 3)
-        t = G.traj(rng, labs, 400, sticky=0.9) + labs
+        # start state left at once, a very sticky middle state, final state left at once: the chain is inside an open
+        # event nearly all the time, so an event straddles step 2^20 almost surely
+        t = []
+        for _r in range(rng.randint(8, 12)):
+            t += [labs[0]] * rng.randint(1, 2) + [labs[1]] * rng.randint(30, 60) + [labs[2]] * rng.randint(1, 2)
+        t += [labs[0]]
         yield {'trajs': [t], 'lag': 1, 'S': [labs[0]], 'F': [labs[2]], 'steps': 2**20 + rng.randint(1000, 9000),
                'seed': rng.randrange(2**31), 'npseed': rng.randrange(2**31), 'alpha': 'huge-steps', 'mal': None, 'long': 'huge-steps'}
 
@@ -317,7 +322,8 @@ def judge(case, ibc, answers):
                         bad = 'does not lead from the start set %s to the final set %s' % (case['S'], case['F'])
                     else:
                         for a, b in zip(key, key[1:]):
-                            if Tm[ms.index(a)][ms.index(b)] == 0:
+                            # (a state whose row is all zero was never left in the data: what the sampler does from it is not fixed)
+                            if Tm[ms.index(a)][ms.index(b)] == 0 and any(x != 0 for x in Tm[ms.index(a)]):
                                 bad = 'uses the transition %d>%d although T = 0 in the exact model' % (a, b)
                                 break
                     if bad:
